@@ -29,7 +29,12 @@ type scriptReader struct {
 	eofData  bool // the last fragment is returned together with io.EOF
 	oneShot  bool // the fault is reported once; a reader asked again answers io.EOF
 	reported bool
+	fault    error // the error the reader fails with
 }
+
+// the errors a failing reader answers with: a private one, and the bare io.ErrUnexpectedEOF that
+// truncated gzip/flate/HTTP bodies produce (which must not be taken for the end of the stream)
+var c09Faults = []error{errSentinel, io.ErrUnexpectedEOF, io.ErrClosedPipe}
 
 func (r *scriptReader) Read(p []byte) (int, error) {
 	if r.oneShot && r.reported {
@@ -37,7 +42,7 @@ func (r *scriptReader) Read(p []byte) (int, error) {
 	}
 	if r.faultAt >= 0 && r.pos >= r.faultAt {
 		r.reported = true
-		return 0, errSentinel
+		return 0, r.fault
 	}
 	if r.pos >= len(r.data) {
 		return 0, io.EOF
@@ -62,7 +67,7 @@ func (r *scriptReader) Read(p []byte) (int, error) {
 	}
 	if r.faultAt >= 0 && r.pos >= r.faultAt && r.withData {
 		r.reported = true
-		return n, errSentinel
+		return n, r.fault
 	}
 	return n, nil
 }
@@ -78,11 +83,12 @@ type c09Env struct {
 	TmpSize  int   `json:"tmp_size"`
 	EOFData  bool  `json:"eof_with_data,omitempty"`
 	OneShot  bool  `json:"one_shot_fault,omitempty"`
+	ErrKind  int   `json:"fault_error_kind,omitempty"` // index into c09Faults
 	Choices  []int `json:"choices,omitempty"`
 }
 
 func (e c09Env) String() string {
-	return fmt.Sprintf("stream#%d cuts=%v fault@%d(data=%v oneShot=%v) lastReadWithEOF=%v recycle=%b GOMAXPROCS=%d cap(res)=%d tmpSize=%d", e.Stream, e.Cuts, e.FaultAt, e.WithData, e.OneShot, e.EOFData, e.Recycle, e.Gomax, e.ResCap, e.TmpSize)
+	return fmt.Sprintf("stream#%d cuts=%v fault@%d(data=%v oneShot=%v error#%d) lastReadWithEOF=%v recycle=%b GOMAXPROCS=%d cap(res)=%d tmpSize=%d", e.Stream, e.Cuts, e.FaultAt, e.WithData, e.OneShot, e.ErrKind, e.EOFData, e.Recycle, e.Gomax, e.ResCap, e.TmpSize)
 }
 
 var c09Streams = []string{
@@ -115,7 +121,7 @@ func c09Exec(ch vsched.Chooser, env c09Env, stream []byte) c09Obs {
 	var o c09Obs
 	o.res = vsched.Run(ch, vsched.Options{MaxSteps: 100000, GOMAXPROCS: env.Gomax, Log: os.Getenv("VERIF_DEBUG") != "", Digest: c09Digest, LocalOpt: true}, func() {
 		simdjson.VerifTmpSize = env.TmpSize
-		rd := &scriptReader{data: stream, cuts: env.Cuts, faultAt: env.FaultAt, withData: env.WithData, eofData: env.EOFData, oneShot: env.OneShot}
+		rd := &scriptReader{data: stream, cuts: env.Cuts, faultAt: env.FaultAt, withData: env.WithData, eofData: env.EOFData, oneShot: env.OneShot, fault: c09Faults[env.ErrKind]}
 		res := vsched.MakeChan(make(chan simdjson.Stream, env.ResCap))
 		reuse := vsched.MakeChan(make(chan *simdjson.ParsedJson, 2))
 		simdjson.ParseNDStream(rd, res, reuse)
@@ -136,7 +142,7 @@ func c09Exec(ch vsched.Chooser, env c09Env, stream []byte) c09Obs {
 			}
 			if v.Error != nil {
 				o.errs = append(o.errs, v.Error.Error())
-				if errors.Is(v.Error, errSentinel) {
+				if errors.Is(v.Error, c09Faults[env.ErrKind]) {
 					o.sentinel = true
 				}
 				if v.Error == io.EOF {
@@ -335,7 +341,7 @@ func c09Body(w *W) {
 	if w.Thorough() {
 		pb = 3
 	}
-	w.Note(fmt.Sprintf("environment answers enumerated per stream: every set of <= 2 cut positions of the reader (thorough 3), a reader fault after every byte count with and without data in the same call, sticky and reported only once (then io.EOF; deviation bound 1), recycle-or-keep per delivered value, GOMAXPROCS in {1,3} (queue capacity 1, 2), result-channel capacity {0,2}, chunk buffer size {64 bytes (scaled constant, run-time knob VerifTmpSize), 10 MiB (real constant, default schedule only)}; schedules: every schedule of consumer / forwarder / reader / chunk parsers with <= %d deviations from the deterministic default scheduler (a deviation = any non-default answer: running another thread than the default one, or a fresh instead of a recycled pool object), no state merging; the six-chunk all-recycled scenario with <= 3 deviations, sharded over all workers; for the one-document stream and the empty ones additionally every interleaving outright (unbounded search with state-key pruning)", pb))
+	w.Note(fmt.Sprintf("environment answers enumerated per stream: every set of <= 2 cut positions of the reader (thorough 3), a reader fault after every byte count with and without data in the same call, sticky and reported only once (then io.EOF; deviation bound 1), with a private error value and with bare io.ErrUnexpectedEOF / io.ErrClosedPipe (default schedule), recycle-or-keep per delivered value, GOMAXPROCS in {1,3} (queue capacity 1, 2), result-channel capacity {0,2}, chunk buffer size {64 bytes (scaled constant, run-time knob VerifTmpSize), 10 MiB (real constant, default schedule only)}; schedules: every schedule of consumer / forwarder / reader / chunk parsers with <= %d deviations from the deterministic default scheduler (a deviation = any non-default answer: running another thread than the default one, or a fresh instead of a recycled pool object), no state merging; the six-chunk all-recycled scenario with <= 3 deviations, sharded over all workers; for the one-document stream and the empty ones additionally every interleaving outright (unbounded search with state-key pruning)", pb))
 	type job struct {
 		env    c09Env
 		bound  int
@@ -507,6 +513,10 @@ func c09Body(w *W) {
 						b1 = 1
 					}
 					run(job{c09Env{Stream: si, Cuts: cuts, FaultAt: f, WithData: wd, OneShot: true, Recycle: 0xff, Gomax: 3, ResCap: 0, TmpSize: 64}, b1, 0}, stream, want)
+					// other error values, default schedule
+					for k := 1; k < len(c09Faults); k++ {
+						run(job{c09Env{Stream: si, Cuts: cuts, FaultAt: f, WithData: wd, ErrKind: k, Recycle: 0xff, Gomax: 3, ResCap: 0, TmpSize: 64}, 0, 0}, stream, want)
+					}
 				})
 			}
 		}
